@@ -195,7 +195,7 @@ def _render_file(R, path, repo, canary_fn, canary_kind, depth):
                 else:
                     R.add(text, org)
             R.fn_ranges.append(dict(name=opts.get('rename', name), src_name=name, container=cont, file=f, start=start,
-                                    end=len(R.lines), meta=meta, opts=opts, spec_lines=spec_line_count, from_include=(depth > 0 and rel.startswith('prelude' + os.sep))))
+                                    end=len(R.lines), meta=meta, opts=opts, spec_lines=spec_line_count, from_include=(depth > 0 and rel.startswith('prelude' + os.sep)), from_any_include=depth > 0))
         else:
             raise X.ExtractError('%s:%d: unknown directive `%s`' % (rel, i + 1, d))
 
